@@ -90,6 +90,7 @@ type Spec struct {
 	MaxDepth  int // 0 = until fixpoint
 	MaxStates int // safety cap; 0 = none
 	Deadline  time.Duration
+	Workers   int // goroutines expanding the frontier; 0 = all cores (1 for systems that use process-global seams)
 }
 
 type Path struct {
@@ -292,6 +293,9 @@ func (sp *Spec) Run(rep *core.Report) Stats {
 		}
 	}
 	workers := runtime.NumCPU()
+	if sp.Workers > 0 {
+		workers = sp.Workers
+	}
 	depth := 0
 	for len(frontier) > 0 {
 		if sp.MaxDepth > 0 && depth >= sp.MaxDepth {
